@@ -145,6 +145,75 @@ def _dynamic_slice_sym(ctx, eqn, iv):
     return o
 
 
+
+
+def _isinf(x):
+    return isinstance(x, float) and math.isinf(x)
+
+
+def _cmp_with_inf(kind):
+    """comparisons in which ONE operand is the literal +-inf and the other a (symbolic) real are decided concretely: a real is
+    finite (this is what jnp.isclose / jnp.isinf lower to: `abs(x) == inf`). Everything else goes to the shared encoding."""
+    base = {'lt': jx.s_lt, 'le': jx.s_le, 'gt': lambda a, b: jx.s_lt(b, a), 'ge': lambda a, b: jx.s_le(b, a),
+            'eq': jx.s_eq, 'ne': lambda a, b: jx.s_not(jx.s_eq(a, b))}[kind]
+
+    def f(a, b):
+        if (_isinf(a) or _isinf(b)) and (sym.isz(a) or sym.isz(b)):
+            fa = a if _isinf(a) else 0.0        # any finite stand-in for the real operand
+            fb = b if _isinf(b) else 0.0
+            return {'lt': fa < fb, 'le': fa <= fb, 'gt': fa > fb, 'ge': fa >= fb, 'eq': False, 'ne': True}[kind]
+        return base(a, b)
+    return lambda ctx, P, iv: jx.ew(f, *iv)
+
+
+for _k in ('lt', 'le', 'gt', 'ge', 'eq', 'ne'):
+    jx.ELEMENTWISE[_k] = _cmp_with_inf(_k)
+
+
+_orig_gather = jx.OTHER['gather']
+
+
+def _gather_sym(ctx, eqn, iv):
+    """gather along one axis with a VECTOR of symbolic indices (evals[idx], evecs[:, idx] with idx = argsort): which index element
+    an output element depends on is found by probing the real primitive on element ids; the value is an ite chain over the range"""
+    operand, idx = iv
+    if jx.all_concrete([idx]):
+        return _orig_gather(ctx, eqn, iv)
+    dn = eqn.params['dimension_numbers']
+    if idx.shape[-1] != 1 or len(dn.start_index_map) != 1:
+        raise jx.JXError('symbolic gather only along one axis')
+    n = operand.shape[dn.start_index_map[0]]
+    m = idx.size
+    iflat = idx.reshape(-1)
+    ids = jx.lift(onp.arange(operand.size).reshape(operand.shape))
+
+    def run(op, k_arr):
+        return jx.structural(eqn.primitive, eqn.params, [op, jnp.asarray(onp.asarray(k_arr, dtype=onp.int64).reshape(idx.shape))], which=(0,))
+    base = run(ids, onp.zeros(m))
+    dep = onp.full(base.shape, -1, dtype=int)
+    if n > 1:
+        for i in range(m):
+            e = onp.zeros(m)
+            e[i] = 1
+            pr = run(ids, e)
+            for pos in onp.ndindex(*base.shape) if base.shape else [()]:
+                if pr[pos] != base[pos]:
+                    dep[pos] = i
+    outs = [run(operand, onp.full(m, k)) for k in range(n)]
+    res = onp.empty(base.shape, dtype=object)
+    for pos in onp.ndindex(*base.shape) if base.shape else [()]:
+        if dep[pos] < 0:
+            res[pos] = outs[0][pos]
+            continue
+        i0 = iflat[dep[pos]]
+        r = outs[n - 1][pos]
+        for k in range(n - 2, -1, -1):
+            r = v_if(jx.s_eq(i0, k), outs[k][pos], r)
+        res[pos] = r
+    return res
+
+
+jx.OTHER['gather'] = _gather_sym
 jx.OTHER['sort'] = _sort_multi
 jx.OTHER['dynamic_slice'] = _dynamic_slice_sym
 
